@@ -134,6 +134,9 @@ impl Sandbox {
         let home = base.join("home");
         std::fs::create_dir_all(&root).expect("create sandbox root");
         std::fs::create_dir_all(&home).expect("create sandbox home");
+        // A .gitignore ABOVE the repository root never applies to the repository (git does not read it):
+        // every sandbox carries one that would hide everything if it were honoured.
+        let _ = std::fs::write(base.join(".gitignore"), "*\n");
         Sandbox { base, root, home, keep: false }
     }
 
